@@ -447,6 +447,18 @@ func Run(args []string) int {
 		if res.Panic != "" {
 			emit("P %d %s", id, p.PanicSite(res.Panic))
 		}
+		if res.ctrl != nil && res.world != nil && res.Panic == "" {
+			// footprint correspondence on the cluster the history ended in (graph of the last rebuild may be
+			// stale w.r.t. dropped events: a fresh controller's graph is taken)
+			if fc, _, err := rn.start(res.world, nil); err == nil && fc.Panic == "" {
+				if fm, fr, ok := footprintLine(fc, res.world); ok {
+					emit("G %d %s\tO %s", id, fm, fr)
+				}
+			}
+		}
+		for _, wl := range res.SvcWatch {
+			emit("W %d %s", id, wl)
+		}
 		if m, o := modelLines(res); m != "batches=" {
 			emit("M %d %s\tO %s", id, m, o)
 		}
